@@ -504,3 +504,456 @@ Proof.
   clear - IH Ek. induction Ek; inversion IH; subst; [reflexivity|].
   rewrite (H2 _ H). destruct (eval_tree cval ctx actuals x); [|reflexivity]. now rewrite IHEk.
 Qed.
+
+(* ------------------------------------------------------------------ the printed form as an expression *)
+Fixpoint expr_of (ps : pset) (tr : tree) : expr :=
+  match tr with
+  | T (NPrim name _ _) kids => ECall name (map (expr_of ps) kids)
+  | T (NConst c _) _ => EConst c
+  | T n _ => EVar (fmt ps n [])
+  end.
+
+Definition not_open (ls : list lexeme) : Prop :=
+  match ls with LOpen :: _ => False | _ => True end.
+
+Lemma ident_not_lit s : is_ident s = true -> lit s = None.
+Proof.
+  unfold is_ident, lit. rewrite !andb_true_iff, negb_true_iff. intros [[Hs _] Hk]. rewrite Hs.
+  cbn in Hk. rewrite !orb_false_iff in Hk. destruct Hk as (HF & _ & HT & _).
+  now rewrite HT, HF.
+Qed.
+
+Lemma lexemes_head ps tr : exists a l, lexemes ps tr = LAtom a :: l.
+Proof. destruct tr as [[] kids]; cbn; eauto. Qed.
+
+Lemma atoms_length_le ls : List.length (atoms ls) <= List.length ls.
+Proof. induction ls as [|[] ls IH]; cbn; lia. Qed.
+
+Lemma flatten_nonempty tr : 1 <= List.length (flatten tr).
+Proof. destruct tr; cbn; lia. Qed.
+
+Lemma pexpr_call a f b l :
+  is_ident a = true ->
+  pexpr (S f) (LAtom a :: LOpen :: LAtom b :: l) =
+  match pargs f (LAtom b :: l) with Some (args, r') => Some (ECall a args, r') | None => None end.
+Proof. intro H. cbn. now rewrite H. Qed.
+
+Lemma pexpr_atom a f rest e :
+  not_open rest -> atom_expr a = Some e -> pexpr (S f) (LAtom a :: rest) = Some (e, rest).
+Proof. intros Hn He. destruct rest as [|[] rest]; cbn in *; try contradiction; now rewrite He. Qed.
+
+Lemma pargs_unfold f ls :
+  pargs (S f) ls =
+  match pexpr f ls with
+  | Some (e, LComma :: r) => match pargs f r with Some (es, r') => Some (e :: es, r') | None => None end
+  | Some (e, LClose :: r) => Some ([e], r)
+  | _ => None
+  end.
+Proof. reflexivity. Qed.
+
+Definition pexpr_ok ps (tr : tree) : Prop :=
+  wf_tree tr -> all_nodes (node_ok ps) tr ->
+  forall fuel rest, 2 * List.length (flatten tr) <= fuel -> not_open rest ->
+    pexpr fuel (lexemes ps tr ++ rest) = Some (expr_of ps tr, rest).
+
+Lemma pargs_ok ps ks :
+  Forall (pexpr_ok ps) ks -> Forall wf_tree ks -> Forall (all_nodes (node_ok ps)) ks -> ks <> [] ->
+  forall fuel rest, 2 * List.length (flat_map flatten ks) + 1 <= fuel ->
+    pargs fuel (join_lex (map (lexemes ps) ks) ++ LClose :: rest) = Some (map (expr_of ps) ks, rest).
+Proof.
+  induction ks as [|k ks IH]; intros HP HW HO Hne fuel rest Hf; [congruence|].
+  inversion HP as [|? ? Pk Pks]; inversion HW as [|? ? Wk Wks]; inversion HO as [|? ? Ok Oks]; subst.
+  destruct fuel as [|f]; [lia|]. cbn [flat_map] in Hf. rewrite app_length in Hf.
+  pose proof (flatten_nonempty k) as Hk1. rewrite pargs_unfold.
+  destruct ks as [|k2 ks2].
+  - cbn [map join_lex]. rewrite (Pk Wk Ok f (LClose :: rest)); [reflexivity|cbn in Hf; lia|exact I].
+  - change (join_lex (map (lexemes ps) (k :: k2 :: ks2)))
+      with (lexemes ps k ++ LComma :: join_lex (map (lexemes ps) (k2 :: ks2))).
+    rewrite <- app_assoc. cbn [app].
+    rewrite (Pk Wk Ok f); [|lia|exact I].
+    rewrite (IH Pks Wks Oks ltac:(discriminate) f rest); [reflexivity|lia].
+Qed.
+
+Lemma pexpr_tree ps tr : pexpr_ok ps tr.
+Proof.
+  induction tr as [n kids IH] using tree_ind'. intros W OK fuel rest Hf Hno.
+  apply all_nodes_inv in OK as [On Ok]. destruct (wf_tree_inv _ _ W) as [Har Wk].
+  cbn [flatten List.length] in Hf. destruct fuel as [|f]; [lia|].
+  destruct n as [name args ret|j r|name r|c r|name r].
+  - cbn [lexemes expr_of]. destruct kids as [|k ks].
+    + cbn. cbn in On. now rewrite On.
+    + destruct (lexemes_head ps k) as (b & l & Hb).
+      assert (exists l', (join_lex (map (lexemes ps) (k :: ks)) ++ [LClose]) ++ rest = LAtom b :: l') as (l' & Hl').
+      { cbn [map join_lex]. rewrite Hb. destruct ks; cbn; eauto. }
+      cbn [app]. rewrite Hl', pexpr_call by exact On. rewrite <- Hl', <- app_assoc. cbn [app].
+      rewrite (pargs_ok ps (k :: ks) IH Wk Ok ltac:(discriminate) f rest); [reflexivity|lia].
+  - cbn [lexemes expr_of app fmt]. apply pexpr_atom; [exact Hno|].
+    unfold atom_expr. cbn in On. now rewrite (ident_not_lit _ On), On.
+  - cbn [lexemes expr_of app fmt]. apply pexpr_atom; [exact Hno|].
+    unfold atom_expr. cbn in On. now rewrite (ident_not_lit _ On), On.
+  - cbn [lexemes expr_of app fmt]. apply pexpr_atom; [exact Hno|].
+    unfold atom_expr. cbn in On. destruct On as [_ ->]. reflexivity.
+  - contradiction.
+Qed.
+
+(* the code string of a printable tree parses to the call expression with the same shape *)
+Lemma parse_expr_pp ps tr : wf_tree tr -> all_nodes (node_ok ps) tr ->
+  parse_expr (pp ps tr) = Some (expr_of ps tr).
+Proof.
+  intros W O. unfold parse_expr. rewrite lex_pp0 by assumption.
+  rewrite <- (app_nil_r (lexemes ps tr)) at 2.
+  rewrite (pexpr_tree ps tr W O _ [] ); [reflexivity| |exact I].
+  pose proof (atoms_length_le (lexemes ps tr)) as H. rewrite atoms_lexemes, map_length in H by exact W. lia.
+Qed.
+
+(* ------------------------------------------------------------------ compile = direct evaluation *)
+Lemma nodupb_NoDup l : nodupb l = true -> NoDup l.
+Proof.
+  induction l as [|x r IH]; cbn; intro H; constructor; apply andb_true_iff in H as [A B]; [|auto].
+  intro Hin. apply negb_true_iff in A. assert (existsb (String.eqb x) r = true); [|congruence].
+  apply existsb_exists. exists x. split; [exact Hin|apply String.eqb_refl].
+Qed.
+
+Section CombineFacts.
+  Context {V : Type}.
+
+  Lemma dget_combine_none (x : string) params (actuals : list V) :
+    ~ In x params -> dget x (combine params actuals) = None.
+  Proof.
+    revert actuals; induction params as [|p ps IH]; intros actuals H; [reflexivity|].
+    destruct actuals as [|a as_]; [reflexivity|]. cbn.
+    destruct (String.eqb_spec x p) as [->|_]; [exfalso; apply H; now left|].
+    apply IH. intro; apply H; now right.
+  Qed.
+
+  Lemma dget_combine params : forall (actuals : list V) j x,
+    NoDup params -> List.length params = List.length actuals -> nth_error params j = Some x ->
+    dget x (combine params actuals) = nth_error actuals j.
+  Proof.
+    induction params as [|p ps IH]; intros actuals j x ND L Hj; [destruct j; discriminate|].
+    destruct actuals as [|a as_]; [discriminate|]. inversion ND as [|? ? Hnin ND']; subst.
+    destruct j as [|j]; cbn in *.
+    - injection Hj as ->. now rewrite String.eqb_refl.
+    - destruct (String.eqb_spec x p) as [->|_].
+      + exfalso. apply Hnin. eapply nth_error_In; eauto.
+      + apply IH; auto.
+  Qed.
+End CombineFacts.
+
+(* names used by the tree are not shadowed by a parameter, argument indices exist *)
+Definition name_fresh (params : list string) (n : node) : Prop :=
+  match n with
+  | NPrim name _ _ => ~ In name params
+  | NSym name _ => ~ In name params
+  | NArg j _ => j < List.length params
+  | NConst _ _ => True
+  | NClass _ _ => False
+  end.
+
+(* the primitive set's view of its arguments is consistent and gives a legal lambda header *)
+Definition pset_ok (ps : pset) : Prop :=
+  ps_argvalue ps = ps_arguments ps /\ forallb is_ident (ps_arguments ps) = true
+  /\ nodupb (ps_arguments ps) = true.
+
+Section CompileFacts.
+  Context {V : Type}.
+  Variable cval : cst -> option V.
+
+  Lemma eval_expr_of ps ctx params actuals tr :
+    ps_argvalue ps = params -> NoDup params -> List.length params = List.length actuals ->
+    all_nodes (name_fresh params) tr ->
+    eval_expr cval ctx (combine params actuals) (expr_of ps tr) = eval_tree cval ctx actuals tr.
+  Proof.
+    intros Hav ND L. induction tr as [n kids IH] using tree_ind'. intro NF.
+    apply all_nodes_inv in NF as [Fn Fk].
+    destruct n as [name args ret|j r|name r|c r|name r]; cbn [expr_of eval_expr eval_tree fmt].
+    - cbn in Fn. rewrite (dget_combine_none _ _ actuals Fn).
+      destruct (dget name ctx) as [[v|g]|]; try reflexivity.
+      match goal with |- match ?a with _ => _ end = match ?b with _ => _ end => assert (a = b) as ->; [|reflexivity] end.
+      clear - IH Fk. induction IH as [|k ks Hk _ IHl]; inversion Fk; subst; cbn [map]; [reflexivity|].
+      rewrite (Hk H1). destruct (eval_tree cval ctx actuals k); [|reflexivity]. now rewrite IHl.
+    - cbn in Fn. rewrite Hav.
+      destruct (nth_error params j) as [x|] eqn:Ex; [|apply nth_error_None in Ex; lia].
+      rewrite (nth_error_nth _ _ _ Ex), (dget_combine params actuals j x ND L Ex).
+      destruct (nth_error actuals j) eqn:Ea; [reflexivity|]. apply nth_error_None in Ea. lia.
+    - cbn in Fn. now rewrite (dget_combine_none _ _ actuals Fn).
+    - reflexivity.
+    - contradiction.
+  Qed.
+
+  Theorem compile_sem ps ctx tr actuals :
+    pset_ok ps -> wf_tree tr -> all_nodes (node_ok ps) tr ->
+    all_nodes (name_fresh (ps_arguments ps)) tr ->
+    run_compiled cval (compile cval ps ctx (flatten tr)) actuals =
+    if Nat.eqb (List.length (ps_arguments ps)) (List.length actuals)
+    then eval_prefix cval ctx actuals (flatten tr) else None.
+  Proof.
+    intros (Hav & Hid & Hnd) W O NF. unfold compile, eval_prefix.
+    rewrite str_flatten, parse_expr_pp, parse_flatten by assumption.
+    destruct (ps_arguments ps) as [|p params] eqn:Ep.
+    - pose proof (eval_expr_of ps ctx [] [] tr Hav (NoDup_nil _) eq_refl NF) as H. cbn [combine] in H.
+      rewrite H. destruct actuals as [|a as_]; cbn [List.length Nat.eqb].
+      + destruct (eval_tree cval ctx [] tr); reflexivity.
+      + destruct (eval_tree cval ctx [] tr); reflexivity.
+    - rewrite Hid, Hnd. cbn [andb run_compiled]. unfold call_lambda.
+      destruct (Nat.eqb_spec (List.length (p :: params)) (List.length actuals)) as [L|_]; [|reflexivity].
+      apply eval_expr_of; auto. apply nodupb_NoDup; exact Hnd.
+  Qed.
+End CompileFacts.
+
+(* ------------------------------------------------------------------ constants that satisfy node_ok *)
+Lemma repr_Z_not_ident_start z : ident_start (repr_Z z) = false.
+Proof.
+  pose proof (repr_Z_chars z) as H. destruct (repr_Z z) as [|c r]; [reflexivity|].
+  cbn in H |- *. apply andb_true_iff in H as [H _].
+  unfold is_digit_or_minus, is_digit in H. unfold is_alpha_.
+  rewrite !orb_true_iff, !andb_true_iff, !Nat.leb_le, !Nat.eqb_eq in H.
+  destruct (_ || _) eqn:E; [|reflexivity]. exfalso.
+  rewrite !orb_true_iff, !andb_true_iff, !Nat.leb_le, !Nat.eqb_eq in E. lia.
+Qed.
+
+Lemma lit_int z : lit (repr (CInt z)) = Some (CInt z).
+Proof. cbn. unfold lit. now rewrite repr_Z_not_ident_start, parse_repr_Z. Qed.
+
+Lemma lit_bool b : lit (repr (CBool b)) = Some (CBool b).
+Proof. destruct b; reflexivity. Qed.
+
+Lemma const_int_ok ps z r : node_ok ps (NConst (CInt z) r).
+Proof. split; [apply repr_Z_atom_ok|apply lit_int]. Qed.
+
+Lemma const_bool_ok ps b r : node_ok ps (NConst (CBool b) r).
+Proof. split; [destruct b; reflexivity|apply lit_bool]. Qed.
+
+(* ------------------------------------------------------------------ compileADF *)
+Lemma expr_ind' (P : expr -> Prop) :
+  (forall f args, Forall P args -> P (ECall f args)) ->
+  (forall c, P (EConst c)) -> (forall x, P (EVar x)) -> forall e, P e.
+Proof.
+  intros HC HK HV. fix IH 1. intros [f args|c|x]; [|apply HK|apply HV].
+  apply HC. induction args as [|a r IHr]; constructor; [apply IH|exact IHr].
+Qed.
+
+Section AdfFacts.
+  Context {V : Type}.
+  Variable cval : cst -> option V.
+
+  Definition obj_equiv (o o' : obj V) : Prop :=
+    match o, o' with
+    | OVal v, OVal v' => v = v'
+    | OFun f, OFun g => forall vs, f vs = g vs
+    | _, _ => False
+    end.
+
+  Definition entry_rel (kv kv' : string * obj V) : Prop :=
+    fst kv = fst kv' /\ obj_equiv (snd kv) (snd kv').
+  Definition ctx_rel (c c' : context V) : Prop := Forall2 entry_rel c c'.
+
+  Lemma obj_equiv_refl o : obj_equiv o o.
+  Proof. destruct o; cbn; auto. Qed.
+
+  Lemma ctx_rel_refl c : ctx_rel c c.
+  Proof. induction c as [|[k o] c IH]; constructor; [split; [reflexivity|apply obj_equiv_refl]|exact IH]. Qed.
+
+  Lemma ctx_rel_dget c c' k : ctx_rel c c' ->
+    match dget k c, dget k c' with
+    | Some o, Some o' => obj_equiv o o'
+    | None, None => True
+    | _, _ => False
+    end.
+  Proof.
+    induction 1 as [|[k1 o1] [k2 o2] c c' [Hk Ho] _ IH]; cbn; [exact I|].
+    cbn in Hk, Ho. subst k2. destruct (String.eqb k k1); [exact Ho|exact IH].
+  Qed.
+
+  Lemma ctx_rel_dset c c' k o o' : ctx_rel c c' -> obj_equiv o o' -> ctx_rel (dset k o c) (dset k o' c').
+  Proof.
+    intros H Ho. induction H as [|[k1 o1] [k2 o2] c c' [Hk Ho1] Hc IH]; cbn.
+    - constructor; [split; [reflexivity|exact Ho]|constructor].
+    - cbn in Hk, Ho1. subst k2. destruct (String.eqb k k1).
+      + constructor; [split; [reflexivity|exact Ho]|exact Hc].
+      + constructor; [split; [reflexivity|exact Ho1]|exact IH].
+  Qed.
+
+  Lemma ctx_rel_dupdate u u' : ctx_rel u u' -> forall m m', ctx_rel m m' -> ctx_rel (dupdate m u) (dupdate m' u').
+  Proof.
+    unfold dupdate. induction 1 as [|[k1 o1] [k2 o2] u u' [Hk Ho] _ IH]; intros m m' Hm; cbn; [exact Hm|].
+    cbn in Hk, Ho. subst k2. apply IH. now apply ctx_rel_dset.
+  Qed.
+
+  Lemma eval_expr_rel c c' env e : ctx_rel c c' -> eval_expr cval c env e = eval_expr cval c' env e.
+  Proof.
+    intro H. induction e as [f args IH|k|x] using expr_ind'; cbn [eval_expr].
+    - destruct (dget f env); [reflexivity|].
+      pose proof (ctx_rel_dget c c' f H) as Hf.
+      destruct (dget f c) as [[v|g]|], (dget f c') as [[v'|g']|]; cbn in Hf; try contradiction; try reflexivity.
+      match goal with |- match ?a with _ => _ end = match ?b with _ => _ end => assert (a = b) as ->; [|destruct b; auto] end.
+      clear - IH. induction IH as [|a r Ha _ IHr]; [reflexivity|]. now rewrite Ha, IHr.
+    - reflexivity.
+    - destruct (dget x env); [reflexivity|].
+      pose proof (ctx_rel_dget c c' x H) as Hx.
+      destruct (dget x c) as [[v|g]|], (dget x c') as [[v'|g']|]; cbn in Hx; try contradiction; congruence.
+  Qed.
+
+  Lemma eval_tree_rel c c' actuals tr : ctx_rel c c' -> eval_tree cval c actuals tr = eval_tree cval c' actuals tr.
+  Proof.
+    intro H. induction tr as [n kids IH] using tree_ind'. destruct n; cbn [eval_tree]; try reflexivity.
+    - pose proof (ctx_rel_dget c c' name H) as Hf.
+      destruct (dget name c) as [[v|g]|], (dget name c') as [[v'|g']|]; cbn in Hf; try contradiction; try reflexivity.
+      match goal with |- match ?a with _ => _ end = match ?b with _ => _ end => assert (a = b) as ->; [|destruct b; auto] end.
+      clear - IH. induction IH as [|a r Ha _ IHr]; [reflexivity|]. now rewrite Ha, IHr.
+    - pose proof (ctx_rel_dget c c' name H) as Hx.
+      destruct (dget name c) as [[v|g]|], (dget name c') as [[v'|g']|]; cbn in Hx; try contradiction; congruence.
+  Qed.
+
+  Lemma eval_prefix_rel c c' actuals t : ctx_rel c c' -> eval_prefix cval c actuals t = eval_prefix cval c' actuals t.
+  Proof. intro H. unfold eval_prefix. destruct (parse t); [now apply eval_tree_rel|reflexivity]. Qed.
+
+  (* a definition of the family that satisfies the hypotheses of compile_sem *)
+  Definition def_ok (d : adfdef V) : Prop :=
+    exists tr, d_tree d = flatten tr /\ wf_tree tr /\ all_nodes (node_ok (d_ps d)) tr /\
+               all_nodes (name_fresh (ps_arguments (d_ps d))) tr /\ pset_ok (d_ps d).
+
+  (* compile evaluates a tree without argument on the spot; for an ADF (not the main tree) that must succeed *)
+  Fixpoint zero_ok (rest : list (adfdef V)) : Prop :=
+    match rest with
+    | [] => True
+    | d :: r =>
+        (ps_arguments (d_ps d) <> [] \/
+         eval_prefix cval (dupdate (d_ctx d) (adf_env cval r)) [] (d_tree d) <> None) /\ zero_ok r
+    end.
+
+  Fixpoint loop_st (rdefs : list (adfdef V)) (dict : context V) (func : option (compiled V))
+    : option (context V * option (compiled V)) :=
+    match rdefs with
+    | [] => Some (dict, func)
+    | d :: r =>
+        match compile cval (d_ps d) (dupdate (d_ctx d) dict) (d_tree d) with
+        | None => None
+        | Some k => loop_st r (dset (d_name d) (adf_obj cval k) dict) (Some k)
+        end
+    end.
+
+  Lemma loop_st_spec l : forall d f,
+    compile_adf_loop cval l d f = match loop_st l d f with Some (_, f') => f' | None => None end.
+  Proof.
+    induction l as [|x l IH]; intros d f; cbn; [reflexivity|].
+    destruct (compile cval _ _ _); [apply IH|reflexivity].
+  Qed.
+
+  Lemma loop_st_app l1 l2 : forall d f,
+    loop_st (l1 ++ l2) d f = match loop_st l1 d f with Some (d', f') => loop_st l2 d' f' | None => None end.
+  Proof.
+    induction l1 as [|x l1 IH]; intros d f; cbn; [reflexivity|].
+    destruct (compile cval _ _ _); [apply IH|reflexivity].
+  Qed.
+
+  Lemma adf_obj_run k vs :
+    match adf_obj cval k with OFun f => f vs | OVal _ => None end = run_compiled cval (Some k) vs.
+  Proof. destruct k; reflexivity. Qed.
+
+  Lemma compile_obj d g g' :
+    def_ok d -> ctx_rel g g' ->
+    (ps_arguments (d_ps d) <> [] \/ eval_prefix cval g' [] (d_tree d) <> None) ->
+    exists k, compile cval (d_ps d) g (d_tree d) = Some k /\ obj_equiv (adf_obj cval k) (denote cval d g').
+  Proof.
+    intros (tr & Et & W & O & NF & PO) R Hz.
+    assert (exists k, compile cval (d_ps d) g (d_tree d) = Some k) as [k Hk].
+    { destruct PO as (Hav & Hid & Hnd). unfold compile. rewrite Et, str_flatten, parse_expr_pp by assumption.
+      destruct (ps_arguments (d_ps d)) as [|p params] eqn:Ep.
+      - destruct Hz as [Hz|Hz]; [congruence|].
+        pose proof (eval_expr_of cval (d_ps d) g [] [] tr Hav (NoDup_nil _) eq_refl NF) as H. cbn [combine] in H.
+        rewrite H. rewrite Et in Hz. unfold eval_prefix in Hz. rewrite parse_flatten in Hz by exact W.
+        rewrite (eval_tree_rel g g' [] tr R). destruct (eval_tree cval g' [] tr); [eauto|congruence].
+      - rewrite Hid, Hnd. cbn. eauto. }
+    exists k. split; [exact Hk|].
+    pose proof (fun vs => compile_sem cval (d_ps d) g tr vs PO W O NF) as Hs. rewrite <- Et, Hk in Hs.
+    unfold denote. destruct k as [v|p b gl]; cbn [adf_obj obj_equiv]; intro vs.
+    - specialize (Hs vs). cbn [run_compiled] in Hs. rewrite Hs.
+      destruct (Nat.eqb _ _); [now apply eval_prefix_rel|reflexivity].
+    - specialize (Hs vs). cbn [run_compiled] in Hs. rewrite Hs.
+      destruct (Nat.eqb _ _); [now apply eval_prefix_rel|reflexivity].
+  Qed.
+
+  Lemma loop_rest rest :
+    Forall def_ok rest -> zero_ok rest ->
+    exists dict f, loop_st (rev rest) [] None = Some (dict, f) /\ ctx_rel dict (adf_env cval rest).
+  Proof.
+    induction rest as [|d r IH]; intros HD HZ.
+    - exists [], None. split; [reflexivity|constructor].
+    - inversion HD as [|? ? Hd Hr]; subst. destruct HZ as [Hz HZr].
+      destruct (IH Hr HZr) as (dict & f & Hl & Hrel).
+      cbn [rev]. rewrite loop_st_app, Hl. cbn [loop_st].
+      assert (ctx_rel (dupdate (d_ctx d) dict) (dupdate (d_ctx d) (adf_env cval r))) as Hu.
+      { apply ctx_rel_dupdate; [exact Hrel|apply ctx_rel_refl]. }
+      destruct (compile_obj d _ _ Hd Hu Hz) as (k & Hk & Ho). rewrite Hk.
+      eexists _, _. split; [reflexivity|]. cbn [adf_env]. now apply ctx_rel_dset.
+  Qed.
+
+  (* compileADF: the function (or value) it returns is the main tree evaluated directly, where a call of
+     ADF_i evaluates ADF_i's own prefix tree on the argument values, ADF_i seeing exactly the ADFs that
+     follow it in the list *)
+  Theorem compile_adf_sem defs actuals :
+    Forall def_ok defs -> zero_ok (tl defs) ->
+    run_compiled cval (compile_adf cval defs) actuals = adf_sem cval defs actuals.
+  Proof.
+    destruct defs as [|d0 rest]; [reflexivity|]. intros HD HZ. cbn [tl] in HZ.
+    inversion HD as [|? ? Hd0 Hr]; subst.
+    destruct (loop_rest rest Hr HZ) as (dict & f & Hl & Hrel).
+    unfold compile_adf. cbn [rev]. rewrite loop_st_spec, loop_st_app, Hl. cbn [loop_st].
+    assert (ctx_rel (dupdate (d_ctx d0) dict) (dupdate (d_ctx d0) (adf_env cval rest))) as Hu.
+    { apply ctx_rel_dupdate; [exact Hrel|apply ctx_rel_refl]. }
+    destruct Hd0 as (tr & Et & W & O & NF & PO).
+    pose proof (compile_sem cval (d_ps d0) (dupdate (d_ctx d0) dict) tr actuals PO W O NF) as Hs.
+    rewrite <- Et in Hs. cbn [adf_sem].
+    destruct (compile cval (d_ps d0) (dupdate (d_ctx d0) dict) (d_tree d0)) as [k|] eqn:Ek.
+    - rewrite Hs. destruct (Nat.eqb _ _); [now apply eval_prefix_rel|reflexivity].
+    - cbn [run_compiled] in Hs |- *. rewrite Hs.
+      destruct (Nat.eqb _ _); [now apply eval_prefix_rel|reflexivity].
+  Qed.
+End AdfFacts.
+
+(* ------------------------------------------------------------------ the round trip, on prefix lists *)
+Lemma read_print sub ps t tr :
+  (forall a, sub a a = true) -> (forall a b c, sub a b = true -> sub b c = true -> sub a c = true) ->
+  parse t = Some tr -> all_nodes (node_ok ps) tr -> all_nodes (resolvable sub ps) tr -> typed sub tr ->
+  exists t',
+    read sub (ps_mapping ps) (str_tree ps t) = Some t' /\
+    str_tree ps t' = str_tree ps t /\
+    List.length t' = List.length t /\
+    map node_arity t' = map node_arity t /\
+    (forall V (cval : cst -> option V) ctx actuals,
+        eval_prefix cval ctx actuals t' = eval_prefix cval ctx actuals t) /\
+    (forall V (cval : cst -> option V) ctx, compile cval ps ctx t' = compile cval ps ctx t).
+Proof.
+  intros Hr Ht Hp O R Ty. destruct (parse_sound _ _ Hp) as [-> W].
+  destruct (read_print_tree sub ps Hr Ht tr W O R Ty) as (tr' & E & Hread).
+  pose proof (tree_equiv_wf _ _ E W) as W'.
+  assert (str_tree ps (flatten tr') = str_tree ps (flatten tr)) as Hs.
+  { rewrite !str_flatten by assumption. now apply tree_equiv_pp. }
+  exists (flatten tr'). repeat split; [exact Hread|exact Hs| |now apply tree_equiv_shape| |].
+  - rewrite <- (map_length node_arity (flatten tr')), <- (map_length node_arity (flatten tr)).
+    f_equal. now apply tree_equiv_shape.
+  - intros V cval ctx actuals. unfold eval_prefix. rewrite !parse_flatten by assumption.
+    now apply tree_equiv_eval.
+  - intros V cval ctx. unfold compile. now rewrite Hs.
+Qed.
+
+Lemma tokenize_str ps t tr : parse t = Some tr -> all_nodes (node_ok ps) tr ->
+  tokenize (str_tree ps t) = map (node_tok ps) t.
+Proof.
+  intros Hp O. destruct (parse_sound _ _ Hp) as [-> W]. rewrite str_flatten by exact W. now apply tokenize_pp.
+Qed.
+
+Lemma compile_sem_list {V} (cval : cst -> option V) ps ctx t tr actuals :
+  parse t = Some tr -> pset_ok ps -> all_nodes (node_ok ps) tr ->
+  all_nodes (name_fresh (ps_arguments ps)) tr ->
+  run_compiled cval (compile cval ps ctx t) actuals =
+  if Nat.eqb (List.length (ps_arguments ps)) (List.length actuals)
+  then eval_prefix cval ctx actuals t else None.
+Proof. intros Hp PO O NF. destruct (parse_sound _ _ Hp) as [-> W]. now apply compile_sem. Qed.
+
+Lemma code_is_expr ps t tr : parse t = Some tr -> all_nodes (node_ok ps) tr ->
+  parse_expr (str_tree ps t) = Some (expr_of ps tr).
+Proof.
+  intros Hp O. destruct (parse_sound _ _ Hp) as [-> W]. rewrite str_flatten by exact W. now apply parse_expr_pp.
+Qed.
